@@ -1,3 +1,10 @@
-PROP = dict(pkg=".", test="TestVerifC15E3", files=["mc/c15e3/*.go"], libs=["explore", "canon", "sched"],
+_VS = [('"sync"', 'sync "github.com/refraction-networking/uquic/internal/verifmc/vsync"')]
+PROP = dict(libs=["explore", "canon", "sched"],
     engine="E3 schedx", level="exploration", shards=1, crash_is_violation=True, deadline=dict(quick=60, thorough=300),
+    targets=[
+        dict(name="q", pkg=".", test="TestVerifC15E3", files=["mc/c15e3/*.go"], parts=["e3-interleavings"]),
+        dict(name="lp", pkg=".", test="TestVerifC15E3LP", files=["mc/c15e3/*.go", "mc/c15e3/lp/*.go"], parts=["e3-lockpoints"],
+             libs=["explore", "canon", "sched", "vsync"],
+             rewrite={"streams_map.go": _VS, "streams_map_incoming.go": _VS, "streams_map_outgoing.go": _VS}),
+    ],
     rule="x", level_text="x", level_note="x", technique="x")
